@@ -72,6 +72,12 @@ def lib_design(rng, which=None):
         'Nand2': lambda: _same(hw, top, rng, lambda i, o: py4hw.Nand2(top, 'dut', i['a'], i['b'], o['r'])),
         'Nor2': lambda: _same(hw, top, rng, lambda i, o: py4hw.Nor2(top, 'dut', i['a'], i['b'], o['r'])),
         'Reg': lambda: _reg(hw, top, rng),
+        # degenerate arities: a one-input And/Or is a connection, a one-input Nor an inverter
+        'And1': lambda: _mkN(hw, top, rng, py4hw.And, n=1),
+        'Or1': lambda: _mkN(hw, top, rng, py4hw.Or, n=1),
+        'Nor1': lambda: _mkN(hw, top, rng, py4hw.Nor, n=1),
+        # NOT in the stream: memories (`_mem` below).  Their hand-written bodies use `(* attribute *)` instances and reg ARRAYS, which the
+        # Lean Verilog semantics does not execute (C03 parses and checks them; C09/C05 decide their simulator side): see DESIGN §8 / §10.2
         'Counter': lambda: _mk(hw, top, rng, [('reset', 1), ('inc', 1)], [('q', W())], lambda i, o: py4hw.Counter(top, 'dut', i['reset'], i['inc'], o['q'])),
         'ModuloCounter': lambda: _modc(hw, top, rng),
         'Mux2': lambda: _mux2(hw, top, rng),
@@ -100,8 +106,21 @@ def _mk(hw, top, rng, ins, outs, ctor):
     return dict(inputs=i, outputs=o, desc=dict(ins=ins, outs=outs))
 
 
-def _mkN(hw, top, rng, cls):
-    n = rng.randint(1, 5)
+def _mem(hw, top, rng, kind):
+    from py4hw.logic import storage as S
+    aw, dw = rng.choice([1, 1, 2]), rng.choice([1, 4, 8])
+    if kind == 'SynchronousMemory':
+        ins = [('ra', aw), ('wa', aw), ('we', 1), ('wd', dw)]
+        return _mk(hw, top, rng, ins, [('rd', dw)],
+                   lambda i, o: S.SynchronousMemory(top, 'dut', i['ra'], i['wa'], i['we'], o['rd'], i['wd']))
+    ins = [('ra_a', aw), ('wa_a', aw), ('we_a', 1), ('wd_a', dw), ('ra_b', aw), ('wa_b', aw), ('we_b', 1), ('wd_b', dw)]
+    return _mk(hw, top, rng, ins, [('rd_a', dw), ('rd_b', dw)],
+               lambda i, o: S.DualPortSynchronousMemory(top, 'dut', i['ra_a'], i['wa_a'], i['we_a'], o['rd_a'], i['wd_a'],
+                                                        i['ra_b'], i['wa_b'], i['we_b'], o['rd_b'], i['wd_b']))
+
+
+def _mkN(hw, top, rng, cls, n=None):
+    n = n or rng.randint(1, 5)
     w = rng.choice([1, 2, 4, 8])
     ins = [(f'i{k}', w) for k in range(n)]
     return _mk(hw, top, rng, ins, [('r', w)], lambda i, o: cls(top, 'dut', [i[f'i{k}'] for k in range(n)], o['r']))
